@@ -42,7 +42,7 @@ fn veh_event(b: [u8; 4]) -> Value {
                 _ => vec![],
             };
             json!({"ev": "VehRead", "bytes": b, "res": "ok", "k": a["k"], "name": a["name"], "id": a["id"], "re": re,
-                   "disp": cps(&v.to_string()), "is_mod": v.is_mod()})
+                   "disp": cps(&v.to_string()), "is_mod": v.is_mod(), "is_builtin": v.is_builtin(), "lic": format!("{:?}", v.license())})
         },
     }
 }
@@ -210,6 +210,14 @@ fn track_events(w: &mut impl Write, rng: &mut StdRng, randoms: usize) -> usize {
                     json!({"ev": "TrackRow", "bytes": c, "code": cps(&t.code()), "name": cps(&format!("{:?}", t).to_uppercase()),
                            "disp": cps(&t.to_string()), "rev": t.is_reverse(), "open": t.is_open(),
                            "dist": t.distance_mile().is_some() || t.distance_km().is_some(),
+                           // distances in 1/1000 mile / km (-1 = none); the kilometre figure must be the mile figure converted
+                           "mile": t.distance_mile().map(|d| (d * 1000.0).round() as i64).unwrap_or(-1),
+                           "km_ok": match (t.distance_mile(), t.distance_km()) {
+                               (None, None) => true,
+                               (Some(m), Some(k)) => (k - m * 1.609_344).abs() <= 0.001 * m.max(1.0) && m > 0.0,
+                               _ => false,
+                           },
+                           "full": cps(&t.complete_name()),
                            "lic": format!("{:?}", t.license()), "re": re})
                 );
                 n += 1;
